@@ -257,7 +257,10 @@ func (p *Program) runOnce(w *Worker, fn *ssa.Function, prefix []decision, opts O
 				if _, isTA := r.(*runtime.TypeAssertionError); isTA || strings.Contains(msg, "nil map") {
 					res.engine = "interpreter fault: " + msg + " " + shortStack()
 				} else if !x.expectPanic(msg) {
-					x.Viol = append(x.Viol, Violation{Kind: "panic", Msg: clip(msg, 200), Model: x.model(), Path: append([]decision{}, x.taken...)})
+					if os.Getenv("GOSE_DEBUG") != "" {
+						msg += " @ " + shortStack()
+					}
+					x.Viol = append(x.Viol, Violation{Kind: "panic", Msg: clip(msg, 600), Model: x.model(), Path: append([]decision{}, x.taken...)})
 				}
 			case string:
 				if strings.HasPrefix(r, "runtime error") || strings.HasPrefix(r, "interface conversion") || strings.Contains(r, "nil pointer") || strings.Contains(r, "nil interface") || strings.Contains(r, "nil function") {
